@@ -56,6 +56,12 @@ INFO = {
  "C20": ("PBT of generate with a validity predicate over the produced file (many correct outputs)",
          "Generated layouts, maxima, fill modes and generation instants; header bytes, emptiness without fill, value range/integrality and the coarse = sum of retained finer slots relation are checked; existing destinations must be refused untouched. Exploration.",
          TB + "The generator's RNG is crypto-seeded; only validity is judged."),
+ "C13": ("fault-injected lock-lifetime probes (flock LOCK_NB on a fresh descriptor, /proc/self/fd count, GC disabled) + randomized concurrent session stress with a lost-update / torn-read oracle, goroutines and separate processes",
+         "Every generated way an Open/Create can fail after the descriptor was obtained is followed by a deterministic lock/descriptor probe; healthy handles must refuse the probe and block a second Open until Close; concurrent increment sessions and whole-archive readers must never lose an update or see mixed generations. Exploration: interleavings are sampled with generated yield points, not enumerated.",
+         TB + "Linux flock semantics; OS scheduling not controlled (DESIGN.md section 8)."),
+ "C17": ("randomized concurrency stress under the Go race detector with a concurrent == sequential differential oracle",
+         "Generated concurrent fetches on one handle, sum over up to 40 files, and parallel HTTP requests of every endpoint run in a -race build (a race report ends the process and is the violation); every concurrent result must equal the same call executed alone. Exploration.",
+         TB + "The race detector only sees accesses that executed; schedules are not enumerated (DESIGN.md section 8)."),
  "C04": ("PBT against an executable contract in exact arithmetic (rapid), metamorphic over stored content",
          "The fetch shape contract is evaluated in int64 arithmetic and compared for generated (layout, clock, window, id) tuples on empty, partly written and written files. Exploration.",
          TB + "Clock in zone Z7."),
